@@ -87,11 +87,15 @@ def run(tier, seed, mutant=None, only_validate=False):
             for interval in ((2,) if tier == "quick" else (1, 2, 3)):
                 for sync in (False, True):
                     r, rec = amod.mc(res, work, "AsyncRateLimit", "i%d_sync%d" % (interval, sync),
-                                     dict(NE=ne, Interval=interval, SyncCons=sync, MaxTime=3 * interval + 2, Retain=True, Faults=not sync),
+                                     dict(NE=ne, Interval=interval, SyncCons=sync, MaxTime=3 * interval + 2, Retain=True, Faults=not sync, Feedback=False),
                                      INVS, workers=16)
                     amod.spec_violation(res, r, rec, INV_PROP, "C13", "rate_limit")
+            # a cycle through the node: arrivals in the middle of a delivery
+            r, rec = amod.mc(res, work, "AsyncRateLimit", "feedback",
+                             dict(NE=ne, Interval=2, SyncCons=False, MaxTime=8, Retain=True, Faults=False, Feedback=True), INVS, workers=16)
+            amod.spec_violation(res, r, rec, INV_PROP, "C13", "rate_limit")
             r, rec = amod.mc(res, work, "AsyncRateLimit", "legacy_CbSafe",
-                             dict(NE=2, Interval=2, SyncCons=False, MaxTime=4, Retain=False, Faults=False), ["CbSafe"])
+                             dict(NE=2, Interval=2, SyncCons=False, MaxTime=4, Retain=False, Faults=False, Feedback=False), ["CbSafe"])
             rec["expected_violation"] = "CbSafe"
             rec["ok"] = r.violated == "CbSafe"
             if r.violated != "CbSafe":
@@ -110,9 +114,11 @@ def run(tier, seed, mutant=None, only_validate=False):
             gaps = ["e1 s d s " + "w " * g + "e1 e1 s" for g in range(1, 2 * i + 2)]
             gaps += ["e1 s d s " + "w " * g + "e1 s d s " + "w " * h + "e1 e1" for g in range(1, 2 * i + 2) for h in (1, i, i + 1)]
             cfgs.append({"kind": "rate_limit", "interval": i, "cons": ["future"], "max_elems": ne, "idle_wait": True, "schedules": gaps})
+        # a cycle through the limiter (examples/fib_*.py): the consumer emits the next element while it is handed the current one
+        cfgs += [{"kind": "rate_limit", "interval": i, "cons": ["future"], "max_elems": ne, "feedback": True} for i in (2, 3)]
         amod.node_engine(res, work, node="rate_limit", trace_module="AsyncRateLimitTrace", cfgs=cfgs,
                          consts_of=lambda c: dict(NE=ne, Interval=amod.seconds(c["interval"]), SyncCons=c["cons"][0] == "sync",
-                                                  MaxTime=100000000, Retain=True, Faults=bool(c.get("faults"))),
+                                                  MaxTime=100000000, Retain=True, Faults=bool(c.get("faults")), Feedback=bool(c.get("feedback"))),
                          adapt=adapt, attribute=attribute, seed=seed, depth=8 if tier == "quick" else 10,
                          limit=300 if tier == "quick" else 3000, nrandom=250 if tier == "quick" else 2500,
                          default_prop="C13", mutant=mutant,
@@ -131,7 +137,7 @@ def canaries(tier, seed):
 
 
 TRACE_MODULE = "AsyncRateLimitTrace"
-consts_of = lambda c: dict(NE=c['max_elems'], Interval=amod.seconds(c['interval']), SyncCons=c['cons'][0] == 'sync', MaxTime=100000000, Retain=True, Faults=bool(c.get('faults')))
+consts_of = lambda c: dict(NE=c['max_elems'], Interval=amod.seconds(c['interval']), SyncCons=c['cons'][0] == 'sync', MaxTime=100000000, Retain=True, Faults=bool(c.get('faults')), Feedback=bool(c.get('feedback')))
 
 
 def replay(v):
